@@ -22,7 +22,7 @@ use shared::terms::{Term, TriplePattern};
 use std::collections::{BTreeMap, BTreeSet, HashMap, HashSet};
 use std::rc::Rc;
 
-const RULE: &str = "four generators: names (20 hand-written rule templates - copy, swap, join, left/right/non-linear closure, symmetric, multi-conclusion, constants and repeated variables in premise/head, variable predicates, mutual recursion, rules whose own variables are called A/B or v0/v1 - x 12 goal binding shapes incl. repeated goal variable and variable predicate x 14 goal-variable namings incl. v0,v1,.. x seeded fact sets), random (1-3 safe rules, 1-2 premises, 1-2 conclusions, <=12 facts over 2-4 constants, random goal shape, goal variable names drawn from plain names, the rules' own names and v0..v6), depth (chains of length 2-13 under right/left-linear closure, marker propagation, even/odd mutual recursion and ladders of copy/swap rules, so that minimal derivation heights 0..13 occur) and filters (rules with numeric filters, reported as a separate class). Every case runs the goal as drawn and with canonically renamed variables (in a third of the random cases the program is also run with facts and rules in shuffled order and the answer sets are compared). Cases whose predicted search size exceeds a fixed number of unification steps are skipped and counted. Non-trivial = the goal matches at least one model fact of derivation height >= 1 (a rule is needed); distinct by hash of (facts, rules, goal with its variable names).";
+const RULE: &str = "four generators: names (20 hand-written rule templates - copy, swap, join, left/right/non-linear closure, symmetric, multi-conclusion, constants and repeated variables in premise/head, variable predicates, mutual recursion, rules whose own variables are called A/B or v0/v1 - x 12 goal binding shapes incl. repeated goal variable and variable predicate x 14 goal-variable namings incl. v0,v1,.. x seeded fact sets), random (1-3 safe rules, 1-2 premises, 1-2 conclusions, <=12 facts over 2-4 constants, random goal shape, goal variable names drawn from plain names, the rules' own names and v0..v6), depth (chains of length 2-13 under right/left-linear closure, marker propagation, even/odd mutual recursion and ladders of copy/swap rules, so that minimal derivation heights 0..13 occur) and filters (rules with numeric and variable-to-variable filters, also on variables that occur in the conclusion, goals open or bound in the filtered position; reported as a separate class). Every case runs the goal as drawn and with canonically renamed variables (in a third of the random cases the program is also run with facts and rules in shuffled order and the answer sets are compared). Cases whose predicted search size exceeds a fixed number of unification steps are skipped and counted. Non-trivial = the goal matches at least one model fact of derivation height >= 1 (a rule is needed); distinct by hash of (facts, rules, goal with its variable names).";
 
 /// completeness is demanded only up to this minimal derivation height (engine bound: 10)
 const DEMANDED_HEIGHT: u32 = 8;
@@ -1210,8 +1210,21 @@ fn gen_filters(r: &mut Rng) -> Case {
     let mut r1 = parse_rules("?X val ?N => ?X is big").remove(0);
     r1.filters.push(Flt { var: "N".into(), op: op(r), val: r.range(1, 11).to_string() });
     rules.push(r1);
-    match r.below(5) {
+    match r.below(8) {
         0 => {}
+        5 | 6 => {
+            // the filtered variable also occurs in the conclusion: with an open goal the
+            // renamed rule variable is bound through the goal's variable
+            let mut r2 = parse_rules("?X val ?N => ?X bigval ?N").remove(0);
+            r2.filters.push(Flt { var: "N".into(), op: op(r), val: r.range(1, 11).to_string() });
+            rules.push(r2);
+        }
+        7 => {
+            // variable-to-variable filter over variables of the conclusion
+            let mut r2 = parse_rules("?X e ?Z , ?Y e ?Z => ?X sib ?Y").remove(0);
+            r2.filters.push(Flt { var: "X".into(), op: r.pick(&["=", "!="]).to_string(), val: "Y".into() });
+            rules.push(r2);
+        }
         4 => {
             // filter comparing two rule variables
             let mut r2 = parse_rules("?X val ?N , ?Y val ?M => ?X above ?Y").remove(0);
@@ -1232,7 +1245,11 @@ fn gen_filters(r: &mut Rng) -> Case {
         }
     }
     let names: [&str; 2] = *r.pick(&[["A", "B"], ["X", "Y"], ["N", "M"]]);
-    let goal: Pat = match r.below(5) {
+    let head_preds: Vec<String> = rules.iter().flat_map(|rl| rl.concl.iter()).filter_map(|p| if let PT::C(x) = &p.1 { Some(x.clone()) } else { None }).collect();
+    let goal: Pat = match r.below(8) {
+        5 => (v(names[0]), c(r.pick(&head_preds[..]).as_str()), v(names[1])),
+        6 => (c(&ent(r.below(n_ent))), c(r.pick(&head_preds[..]).as_str()), v(names[0])),
+        7 => (v(names[0]), c(r.pick(&head_preds[..]).as_str()), c(&if r.coin() { ent(r.below(n_ent)) } else { r.range(0, 12).to_string() })),
         0 => (v(names[0]), c("is"), c("big")),
         1 => (v(names[0]), c("is"), v(names[1])),
         2 => (v(names[0]), c(*r.pick(&["near", "above", "is"])), v(names[1])),
